@@ -16,7 +16,8 @@ func init() {
 			"C02.2 every insertion is fed by the response it belongs to: node = *res.ResponseFrom under res.ResponseFrom ≠ nil, data = res.ClosestData, res the result of the one DoQuery call of that goroutine; " +
 			"C02.3 the K-nearest order is oriented by XOR distance to the construction-time target, left operand first (shared with C18); " +
 			"C02.4 Push inserts the element it was given, deletes only the iterator's last (farthest) element and only while Len > k, and returns only under ¬(Len > k); Farthest returns that same last element; Full ⇔ Len ≥ k; " +
-			"C02.5 closest, unqueried, queried and outstanding are only touched with Operation.mu held.",
+			"C02.5 closest, unqueried, queried and outstanding are only touched with Operation.mu held; " +
+			"C02.6/C02.7 a response is in the result set before its query stops counting as in flight, and 'stopped' is signalled only after the in-flight count reached zero, so the set read after Stopped is final.",
 		NotDecided: "that the retained elements are the K nearest (needs the metric laws of C18 and the sorted-map semantics of the immutable library), exactness on ideal networks, duplicate-ID behaviour, haveQuery's distance arithmetic.",
 		Assume: []string{
 			"github.com/benbjohnson/immutable SortedMap: Set inserts/replaces, Delete removes exactly the key, Iterator().Last() positions on the greatest key under the comparer",
@@ -28,6 +29,7 @@ func init() {
 			{ID: "C02.3", Doc: "K-nearest comparator orientation", Floor: 2, Run: c02r3},
 			{ID: "C02.4", Doc: "bounded trim from the far end", Floor: 6, Run: c02r4},
 			{ID: "C02.5", Doc: "traversal state guarded by Operation.mu", Floor: 15, Run: c02r5},
+			{ID: "C02.7", Doc: "the result set is final when the lookup reports stopped: stopped is signalled only after every in-flight query returned (shared with C03.4)", Floor: 5, Run: c03r4},
 			{ID: "C02.6", Doc: "a response is registered in the result set before its query stops counting as in flight (shared with C03.2)", Floor: 5, Run: c03r2},
 		},
 	})
@@ -317,6 +319,8 @@ func paramIndex(fn *ssa.Function, p *ssa.Parameter) int {
 func c02r3(w *World, rr *RuleRun) {
 	t := w.trav()
 	w.checkKNearestComparator(rr, t)
+	// the distance comparison itself: int160.Cmp is the big-endian byte order (shared with C18.2)
+	w.checkInt160Cmp(rr)
 }
 
 // c02r4: Push / Farthest / Full shapes.
